@@ -354,3 +354,13 @@ func Tier() string {
 	}
 	return "quick"
 }
+
+// Seed is VERIF_SEED (0 and garbage are remapped to 1), for legs that do not go through rapid.
+func Seed() int {
+	n := 0
+	fmt.Sscan(os.Getenv("VERIF_SEED"), &n)
+	if n <= 0 {
+		n = 1
+	}
+	return n
+}
